@@ -24,8 +24,7 @@ const scannerTokens = "tokens of kind String, RawString and Keyword that the tru
 var exemptionsC05 = map[string]string{
 	`reader.read_atom | slice next(p0).Value[1:len(next(p0).Value)-1]`:                                              scannerTokens,
 	`reader.read_atom | slice next(p0).Value[2:len(next(p0).Value)-2]`:                                              scannerTokens + "; the lone ¬ is handled by the comparison just above",
-	`reader.read_atom | slice next(p0).Value[1:len(next(p0).Value)]`:                                                scannerTokens,
-	`reader.Read_str | index FindStringSubmatch(moduleNamePrefixRE,p0)[1]`:                                          "regexp.FindStringSubmatch returns nil or 1+NumSubexp elements and moduleNamePrefixRE has one group; the nil case is tested",
+	`reader.read_atom | slice next(p0).Value[1:]`:                                                scannerTokens,
 	`reader.Read_str | index local.tokens[local.position-1]`:                                                        "read_form returned without error, so it consumed at least one token (C05.progress: consume summary of read_form) and next() never moves the cursor past len(tokens)",
 	`printer.Pr_str | assert p0.(marshaler.HashMap).MarshalHashMap()#0.(types.HashMap)`:                             "contract of marshaler.HashMap implementations (host types); the only in-module implementation, LispError.MarshalHashMap, returns a types.HashMap",
 }
@@ -41,6 +40,4 @@ var exemptionsC14 = map[string]string{
 }
 
 var exemptionsC20 = map[string]string{
-	`lib/call.call | slice local[:LastIndex(local,".")]`:   "runtime.FuncForPC(...).Name() of a Go function always contains a dot (package.Function), so LastIndex cannot return -1 here",
-	`lib/call.call | slice local[LastIndex(local,".")+1:]`: "n+1 <= len for any n returned by LastIndex on the same string",
 }
